@@ -162,6 +162,20 @@ def generated(quick):
              "a =\nb = ;\nGROUP = g\n c =\nEND_GROUP\n"]
     for t in extra:
         yield "extra", t
+    # every string of the encoder-side value alphabet, written as a quoted value (and as an
+    # element of a sequence), plus non-grammar white space at the edges
+    odd = ["\xa0x y", "x y\xa0", "\x85x", "x\x85", "\x1cq", "q\x1f", "\u2028a", "a\u3000", "\xa0", " \xa0 ", "Infinity",
+           "infinity", "INF", "NaN", "-inf", "+inf", "-nan", "1e400", "True", "False", "None", "null"]
+    for sv in list(modgen.STRINGS) + odd:
+        for q in ('"', "'"):
+            if q in sv:
+                continue
+            t = "k = %s%s%s\nj = (1, %s%s%s)\n" % (q, sv, q, q, sv, q)
+            if quick and q == "'" and len(sv) > 3:
+                continue
+            if t not in seen:
+                seen.add(t)
+                yield "string", t
 
 
 def corpus(quick):
